@@ -3,12 +3,13 @@ package main
 // C15: IOS changes always run under a reload guard and survive its banners.
 
 import (
-	"strconv"
-	"regexp"
 	"fmt"
 	"go/token"
 	"go/types"
+	"regexp"
 	"regexp/syntax"
+	"sort"
+	"strconv"
 	"strings"
 
 	"golang.org/x/tools/go/ssa"
@@ -46,7 +47,7 @@ func checkC15(p *Prog, r *Report) {
 	for _, st := range storesToField(p, fld) {
 		b, ok := constBool(st.Val)
 		if !ok {
-			r.fail("R15.3", "store-const|"+shortName(st.Parent()), p.ipos(st), "store of a non-constant into "+fld.Name(), "")
+			r.fail("R15.3", "store-const|"+shortName(st.Parent()), p.ipos(st), "store of a non-constant into "+fldName(fld), "")
 			continue
 		}
 		if b {
@@ -115,7 +116,7 @@ func checkC15(p *Prog, r *Report) {
 					return false
 				}
 				fa, ok := st.Addr.(*ssa.FieldAddr)
-				if !ok || !strings.HasSuffix(fieldName(fa), "."+fld.Name()) {
+				if !ok || !strings.HasSuffix(fieldName(fa), "."+fldName(fld)) {
 					return false
 				}
 				bv, isC := constBool(st.Val)
@@ -254,6 +255,60 @@ func checkC15(p *Prog, r *Report) {
 		r.floor("R15.1", "callers of the write-memory function", nW, 1)
 	}
 
+	// ---- R15.12: no unstripped echo check inside the reload window
+	r.rule("R15.12", "While a reload is pending its banners can land in the echo of ANY command. In the code that runs between arming and cancelling (the guarded function, the arm and cancel functions and every function of package ios they reach) no call into package console reaches the echo check (*console.Conn).StripEcho; the only echo check of the window is the direct one in the change sender, behind stripReloadBanner (R15.4).")
+	{
+		echoFn := p.Fn("(*console.Conn).StripEcho")
+		if echoFn == nil {
+			r.fail("R15.12", "anchor|(*console.Conn).StripEcho", "", "not found", "")
+		} else {
+			window := map[*ssa.Function]bool{}
+			var add func(f *ssa.Function)
+			add = func(f *ssa.Function) {
+				if f == nil || window[f] || pkgOfFunc(f) != "ios" {
+					return
+				}
+				window[f] = true
+				for _, a := range f.AnonFuncs {
+					add(a)
+				}
+				for _, cs := range callsOf(f) {
+					for _, cal := range calleesOfSite(p, cs) {
+						add(cal)
+					}
+				}
+			}
+			add(guarded)
+			add(arm)
+			add(cancel)
+			var fns []*ssa.Function
+			for f := range window {
+				fns = append(fns, f)
+			}
+			sort.Slice(fns, func(i, j int) bool { return fnDisplay(fns[i]) < fnDisplay(fns[j]) })
+			nCalls := 0
+			for _, f := range fns {
+				seenCallee := map[string]bool{}
+				for _, cs := range callsOf(f) {
+					for _, cal := range calleesOfSite(p, cs) {
+						if pkgOfFunc(cal) != "console" || cal == echoFn {
+							continue
+						}
+						nCalls++
+						k := fnDisplay(f) + "|" + shortName(cal)
+						bad := reachesFn(cal, echoFn)
+						if seenCallee[k] && !bad {
+							continue
+						}
+						seenCallee[k] = true
+						r.add("R15.12", "window-call|"+k, p.ipos(cs.In), "inside the reload window "+fnDisplay(f)+" calls "+shortName(cal)+", which performs no echo check", !bad,
+							shortName(cal)+" compares the device's answer with the command's echo; a reload banner inside that echo aborts the run (changes not sent, or sent but not saved, reload left to the deferred cancel)")
+					}
+				}
+			}
+			r.floor("R15.12", "console calls inside the reload window", nCalls, 10)
+		}
+	}
 	// ---- R15.4
 	var chk *ssa.Function
 	for _, a := range sender.AnonFuncs {
